@@ -119,6 +119,7 @@ func init() {
 			c.rulesC06reuse()
 			c.rulesR3subs()
 			c.rulesR3misc("C06")
+			c.rulesR3flush()
 			c.rulesR3handlers()
 		}
 	})
